@@ -3,13 +3,18 @@
   delivered is never rewritten; stated over every reachable state of the transition system Proto.Subs (any number of
   subscribers, triggers, connections; every interleaving of the modelled lock regions).
 
-  Not proved here (see DESIGN.md, C12): that the data messages of one subscriber carry strictly increasing event
-  numbers (ordering across fan-outs) is enforced by the model's guard `n > lastEvent` together with the updater gate
-  (`fan = none` before a new fan-out) and is checked against the implementation by exact log comparison, but the
-  invariant has not been carried through the proof; mutual exclusion of writer calls is an atomicity assumption of
-  the model that the harness observes on the implementation.
+  Ordering (Proofs.C12Ord, proved over `step` directly): in every reachable state the data messages written to one
+  subscriber belong to the subscriber's own trigger generation, carry strictly increasing event numbers (in order, none
+  twice), are events that pass its filter, and none is numbered above the trigger's last event.
+
+  Not proved here (see DESIGN.md, C12): that every event which passes the filter IS delivered to a subscriber that
+  stays registered (liveness of a fan-out: the model lets `fanOne` happen, it does not force it), and that each
+  message is the response the event would produce for that subscriber alone (the payload is abstracted to the event
+  number); both are checked against the implementation by exact log comparison.  Mutual exclusion of writer calls is an
+  atomicity assumption of the model that the harness observes on the implementation.
 -/
 import GqlVerif.Proofs.C12
+import GqlVerif.Proofs.C12Ord
 namespace GqlVerif.Props.C12
 open GqlVerif.Subs
 
@@ -28,6 +33,28 @@ theorem delivered_is_final {s s' : St} (hs : Reach s) (as : List Act) (h : run s
     ∃ x', s'.subs i = some x' ∧ x.log <+: x'.log ∧ x'.gen = x.gen ∧ x'.key = x.key ∧ x'.conn = x.conn := by
   obtain ⟨x', h1, h2⟩ := prims_subs (run_prims (reach_prims hs).2 as h).1 i x hx
   exact ⟨x', h1, h2.pref, h2.gen, h2.key, h2.conn⟩
+
+/-- **data_in_order**: in every reachable state, the data messages in a subscriber's writer log are events of the
+    subscriber's own trigger generation with strictly increasing event numbers — the order in which the source emitted
+    them, and no event twice — whatever other subscribers, triggers and connections did in between. -/
+theorem data_in_order {s : St} (hs : Reach s) (i : Nat) (x : Sub) (hx : s.subs i = some x) :
+    (∀ p ∈ dataCalls x.log, p.1 = x.gen) ∧ ((dataCalls x.log).map (·.2)).Pairwise (· < ·) :=
+  ⟨((ord_reach hs).sub i x hx).gen, ((ord_reach hs).sub i x hx).sorted⟩
+
+/-- **delivered_at_most_once**: no event number occurs twice among a subscriber's data messages. -/
+theorem delivered_at_most_once {s : St} (hs : Reach s) (i : Nat) (x : Sub) (hx : s.subs i = some x) :
+    ((dataCalls x.log).map (·.2)).Nodup :=
+  (data_in_order hs i x hx).2.imp (fun h => Nat.ne_of_lt h)
+
+/-- **delivered_passed_filter**: every delivered event passes the subscriber's own filter (SkipEvent said no skip). -/
+theorem delivered_passed_filter {s : St} (hs : Reach s) (i : Nat) (x : Sub) (hx : s.subs i = some x) :
+    ∀ p ∈ dataCalls x.log, x.passes p.2 = true :=
+  ((ord_reach hs).sub i x hx).pass
+
+/-- **delivered_not_beyond_last_event**: a subscriber never holds an event its trigger has not emitted yet. -/
+theorem delivered_not_beyond_last_event {s : St} (hs : Reach s) (i : Nat) (x : Sub) (hx : s.subs i = some x)
+    (G : Gen) (hG : s.gens x.gen = some G) : ∀ p ∈ dataCalls x.log, p.2 ≤ G.lastEvent :=
+  ((ord_reach hs).sub i x hx).le G hG
 
 /-- The completed channel of a subscriber is closed at most once (a second close would be a Go panic), and only after
     the subscriber was removed. -/
@@ -118,5 +145,18 @@ def demo : List Act :=
 
 example : ((run St.init demo).bind (·.subs 0)).map (fun x => (x.log, x.removed, x.closed)) = some ([.data 0 1], true, 1) := by decide
 example : ((run St.init demo).bind (·.subs 1)).map (fun x => (x.log, x.removed, x.closed)) = some ([.data 0 1, .complete], true, 1) := by decide
+
+/-- a history in which one subscriber receives several events (6 and 11 pass its filter, 7 does not) -/
+def demoOrder : List Act :=
+  [.subscribe 0 7 1 (some [1]) false, .startCall 0, .startOk 0,
+   .fanBegin 0 (.data 6) none, .fanOne 0 0 false, .fanEnd 0,
+   .fanBegin 0 (.data 7) none, .fanEnd 0,
+   .fanBegin 0 (.data 11) none, .fanOne 0 0 false, .fanEnd 0]
+
+example : ((run St.init demoOrder).bind (·.subs 0)).map (fun x => dataCalls x.log) = some [(0, 6), (0, 11)] := by decide
+/-- the guards the ordering rests on: an event number that is not larger than the last one cannot start a fan-out, and a
+    subscriber is written to once per fan-out -/
+example : run St.init (demoOrder ++ [.fanBegin 0 (.data 11) none]) = none := by decide
+example : run St.init (demoOrder.take 5 ++ [.fanOne 0 0 false]) = none := by decide
 
 end GqlVerif.Props.C12
